@@ -5,6 +5,7 @@ from spverif.core.util import attempt, exc_sig, documented_errors, pool_uint, ra
 from spverif.ref import pus as R
 from spverif.ref.crc import crc16
 
+SCRIBBLE = True
 ID = "C03"
 LEVEL = "exploration"
 SHARDS = {"quick": 1, "thorough": 16}
@@ -252,7 +253,22 @@ def k_view_history(ctx, seed):
             return
 
 
-KINDS = {"tm": k_tm, "tm_short": k_tm_short, "sec_header": k_sec_header, "view_history": k_view_history}
+def k_tm_wrong_type(ctx, apid, count, ts, data):
+    """A primary header that says 'telecommand' handed to the composite-fields route: refused, or packed as telemetry."""
+    tmm, sp, _, Service17Tm = _imp()
+    t, d = bytes.fromhex(ts), bytes.fromhex(data)
+    case = {"k": "tm_wrong_type", "apid": apid, "count": count, "ts": ts, "data": data}
+    ctx.case("tm_wrong_type", (apid, count, t, d), sample=case)
+    h = sp.SpacePacketHeader(sp.PacketType.TC, apid, count, 7 + len(t) + len(d) + 1, True, sp.SequenceFlags.UNSEGMENTED)
+    ok, res = attempt(lambda: bytes(tmm.PusTm.from_composite_fields(h, tmm.PusTmSecondaryHeader(17, 2, t, 0, 0, 0), d).pack()))
+    ctx.ev("tm.refusal")
+    if ok and (res[0] >> 4) & 1:
+        ctx.fail("tm.refusal", "telecommand_header_packed_as_telemetry", "composite", case, observed=res[:16])
+    elif not ok and not isinstance(res, ValueError):
+        ctx.fail("tm.refusal", "wrong_error", f"composite/{type(res).__name__}", case, error=repr(res))
+
+
+KINDS = {"tm_wrong_type": k_tm_wrong_type, "tm": k_tm, "tm_short": k_tm_short, "sec_header": k_sec_header, "view_history": k_view_history}
 
 
 def selftest(ctx):
@@ -269,6 +285,8 @@ def selftest(ctx):
 
 
 def run(ctx):
+    from spverif.san import scribble
+    scribble.install()
     r = ctx.rng
 
     def ts_of(n):
@@ -328,6 +346,8 @@ def run(ctx):
              model_fed=r.random() < 0.5)
     for j in range(ctx.n(1500, 150_000)):
         k_view_history(ctx, ctx.seed * 1_000_003 + ctx.shard[0] * 100_003 + j)
+    for n in range(0, 24):
+        k_tm_wrong_type(ctx, r.getrandbits(11), r.getrandbits(14), rand_bytes(r, r.choice((0, 7, 16))).hex(), rand_bytes(r, n).hex())
     # rejection clause
     for ts_len in (0, 1, 7, 16):
         minimal = 6 + 7 + ts_len + 2
@@ -338,6 +358,7 @@ def run(ctx):
 
 
 def conclude(ctx):
+    ctx.require(ctx.extra.get("hostile_caller_scribbled_pack_results", 0) > 0, "hostile-caller sanitizer scribbled no pack() result")
     for route in ROUTES:
         for ts in TS_LENS:
             ctx.require(any(k.startswith(f"tm/{route}/ts={ts}/") for k in ctx.classes), f"class tm/{route}/ts={ts} empty")
